@@ -1260,3 +1260,406 @@ Example C09_preprocess_instance :
   | _, _ => False
   end.
 Proof. split; [reflexivity|]. split; [reflexivity|]. exact ex_pre_runs. Qed.
+
+(* ====================================================================================
+   TRANSLATION EQUIVARIANCE WITH PREPROCESSING, THE WHOLE locate  (added; nothing above is changed)
+   Model: Model/LocateWhole2.v.  Proofs: Proofs/LocateWhole2.v (tail for two images, measure_noise, the model of the whole
+   pipeline), Proofs/LocatePreGen.v (the GENERATED py_locate with preprocess=True).
+     gtail pass mass sep topn table      the tail of (13)-(16) with the filter [pass] and the column [mass] of the topn step as
+                                         parameters: topn (filter pass (table minus where_close's rows)); tail_out is the instance
+                                         (pass_out T, out_mass)
+     fin_row sqrtf sf o                  the columns of locate's table the tail reads, for the row o of refine_com's table:
+                                         position, mass / scale_factor, size = sqrt(Rg^2), raw_mass   (LocateTail.scale, LocatePipe.row_of)
+     tail_sf sqrtf sep T sf table        = gtail (mass / sf > minmass [& size < maxsize]) (mass / sf) sep topn table:
+                                         where_close on the masses BEFORE rescaling, filters and topn AFTER, as the code does.
+                                         T = (t_minmass, t_maxsize, t_topn), t_maxsize = maxsize itself here
+     no_tie_sf sqrtf sep T sf table      the boolean of (13): no two rows closer than separation have equal mass, and, when topn
+                                         is given, no two rows that reach the topn step have equal mass / sf
+     ep_of sqrtf radius noise_size ch im raw r
+                                         the ep column(s) of the kept row r (LocateTail.ep_row, the C08 model of _static_error),
+                                         black_level / noise = LocatePipe.measure_noise sqrtf im raw radius: the BACKGROUND pixels are
+                                         those of the PROCESSED image im (zero on the whole mask neighbourhood), the VALUES averaged
+                                         are those of the RAW image
+     wline = (output, row, list fval)    one line of the final table: refine_com's row (all columns: position, mass before rescaling,
+                                         size(s)^2, signal, raw_mass), fin_row of it, its ep entries
+     whole_table sqrtf sep T sf radius noise_size ch im raw table   the final table computed from refine_com's table
+     refine_rows2 percentile P raw im    refine_com(raw, im) at the maxima of im (the rows of (37))
+     locate_pre_whole sqrtf percentile np_exp dt P T noise_size smoothing_size threshold raw
+                                         = preprocess_stage ; refine_rows2 ; whole_table: the model of locate(preprocess=True) on a 2-D
+                                         integer image after the validation of the arguments; returns (scale_factor, table)
+     wline_moved d a b                   refine_com's row moved by d with every other column identical (row_moved), position column moved,
+                                         mass / sf the same number (==), size and raw_mass identical
+     wline_moved_ep d a b                wline_moved, and the ep entries equal as float64 values (NaN = NaN, rationals ==)
+     dline_moved / dline_moved_ep        the same on the lines of the generated table (dframe: position columns, mass, size, raw_mass, ep)
+   ==================================================================================== *)
+From TP Require Import Model.LocateWhole2 Proofs.LocateWhole2 Proofs.LocatePreGen.
+Open Scope Z_scope.
+
+(* (38) THE TAIL STEP FOR TWO IMAGES.  Two tables of refine rows -- from ANY source: the raw_mass column may have been measured on
+   a second image -- that correspond one to one (second table up to its row order), positions moved by d and every other column
+   identical; two scale factors that are the same number; no tie in the first table.  Then the tables after where_close,
+   mass /= scale_factor, minmass / maxsize and topn correspond one to one in the same way.  (13) is the case sf = 1, raw = image. *)
+Theorem C09_tail_two_images_moved :
+  forall (sqrtf : Q -> Q) d sep T sf1 sf2 table1 table2 rows,
+    (sf1 == sf2)%Q ->
+    no_tie_sf sqrtf sep T sf1 table1 = true -> Permutation table2 rows -> Forall2 (row_moved d) table1 rows ->
+    exists rows', Permutation (tail_sf sqrtf sep T sf2 table2) rows' /\
+                  Forall2 (row_moved d) (tail_sf sqrtf sep T sf1 table1) rows'.
+Proof. exact tail_sf_moved. Qed.
+Print Assumptions C09_tail_two_images_moved.
+
+(* (38b) the abstract form: any row relation R that preserves the mass, the filter, the topn column and closeness *)
+Theorem C09_tail_equivariant_general :
+  forall (R : output -> output -> Prop) sep sep' topn passA passB massA massB,
+  (forall a b, R a b -> o_mass b = o_mass a) ->
+  (forall a b, R a b -> passB b = passA a) ->
+  (forall a b, R a b -> (massB b == massA a)%Q) ->
+  (forall a b a' b', R a b -> R a' b' -> close sep' (o_pos b) (o_pos b') = close sep (o_pos a) (o_pos a')) ->
+  forallb (Qltb 0) sep' = forallb (Qltb 0) sep ->
+  forall table1 table2 rows,
+    no_tie_g passA massA sep topn table1 = true -> Permutation table2 rows -> Forall2 R table1 rows ->
+    exists rows', Permutation (gtail passB massB sep' topn table2) rows' /\
+                  Forall2 R (gtail passA massA sep topn table1) rows'.
+Proof. exact gtail_equivariant. Qed.
+Print Assumptions C09_tail_equivariant_general.
+
+(* (39) WHAT measure_noise SEES.  Processed images im1, im2 and raw images raw1, raw2, both pairs moved by d; every bright pixel of
+   the processed image keeps the mask radius from the edges of both canvases; the raw images are blank outside their shapes.  If the
+   two canvases have the SAME NUMBER of pixels, the raw values on the background (LocatePipe.background: processed image zero on the
+   whole mask neighbourhood) are the same multiset -- hence the same black_level (mean) and noise (standard deviation).  With
+   different numbers of pixels the blank part of the background has a different size and mean and deviation change
+   (C09_preprocess_whole_instance below shows it happen). *)
+Theorem C09_background_values_moved :
+  forall d radius im1 im2 raw1 raw2,
+    List.length d = List.length radius -> List.length (shape im1) = List.length radius ->
+    moved d im1 im2 -> moved d raw1 raw2 -> List.length (shape raw1) = List.length radius ->
+    (forall p, pix im1 p <> 0 -> room radius (shape im1) 0 p /\ room radius (shape im2) 0 (vadd p d)) ->
+    (forall p, pix raw1 p <> 0 -> in_bounds (shape im1) p) -> (forall p, pix raw2 p <> 0 -> in_bounds (shape im2) p) ->
+    List.length (coords (shape im1)) = List.length (coords (shape im2)) ->
+    Permutation (map (pix raw1) (LocatePipe.background im1 radius)) (map (pix raw2) (LocatePipe.background im2 radius)).
+Proof. exact background_values_moved. Qed.
+Print Assumptions C09_background_values_moved.
+
+(* (40) THE WHOLE locate WITH preprocess=True MOVES WITH THE CONTENT (model: locate_pre_whole).  Premises of (35) / (37): an integer
+   content (h x w) pasted at two offsets into two blank canvases, both padded by the reach of bandpass; the grown content box keeps
+   the margin and radius + max_iterations - 1 from the edges of both canvases; per-axis parameters of length 2; no tie in refine_com's
+   table of the FIRST run (a boolean computed from that run).  Then both runs succeed, with scale factors that are the same number,
+   and the two final tables correspond one to one (second table up to its row order):
+     * every position moved by exactly the offset difference d;
+     * mass (before rescaling), size(s), signal, raw_mass IDENTICAL; mass / scale_factor the same number;
+     * ep: equal as float64 values PROVIDED the two canvases have the same number of pixels H1 * W1 = H2 * W2 (in particular: equal
+       shapes) and np.sqrt is a function of the value of its argument.  Without that proviso ep is NOT invariant: measure_noise averages
+       the raw image over the background of the processed image, blank canvas included, so black_level = (sum of the non-blank
+       background) / (number of background pixels) depends on the canvas size.
+   threshold >= 0 is inherited from (35); (43) below replaces it by 'each canvas has a pixel outside the grown content box'.
+   Not covered: float raw images, engine='numba', 3-D (the convert_to_int step is 2-D), float64 rounding. *)
+Theorem C09_locate_preprocess_whole_moved :
+  forall (sqrtf : Q -> Q) (percentile : list Z -> Q),
+    (forall l l', Permutation l l' -> percentile l = percentile l') ->
+    (forall l, (forall v, In v l -> 0 <= v) -> (0 <= percentile l)%Q) ->
+  forall np_exp dt content h w H1 W1 oy1 ox1 H2 W2 oy2 ox2 (P : Equivariance.lparams) (T : tparams) ny nx sy sx threshold,
+  let Tr := Gen.preproc.py_bandpass_default_truncate in
+  let py := stage_par np_exp ny sy in
+  let px := stage_par np_exp nx sx in
+  let ry := stage_reach np_exp ny sy in
+  let rx := stage_reach np_exp nx sx in
+  let csh' := [h + 2 * ry; w + 2 * rx] in
+  let d := vsub [oy2; ox2] [oy1; ox1] in
+  let m := map (fun r => r + Z.of_nat (pred (iters_of (lp_maxit P)))) (lp_radius P) in
+  let raw1 := embed [H1; W1] [oy1; ox1] content in
+  let raw2 := embed [H2; W2] [oy2; ox2] content in
+  shape content = [h; w] -> (forall c, pix content c <> 0 -> in_bounds (shape content) c) ->
+  1 <= h -> 1 <= w -> (0 <= threshold)%Q -> 0 <= iinfo_max dt -> 1 <= sy -> 1 <= sx ->
+  (ny < inject_Z sy)%Q -> (nx < inject_Z sx)%Q -> Z.odd sy = true -> Z.odd sx = true ->
+  List.length (lp_sep P) = 2%nat -> List.length (lp_margin P) = 2%nat -> List.length (lp_radius P) = 2%nat ->
+  Forall (fun s => 1 <= s) (map (box_size 2) (lp_sep P)) ->
+  paddedb [H1; W1] [oy1; ox1] [h; w] [ghw_of Tr py; ghw_of Tr px] [bhw_of py; bhw_of px] = true ->
+  paddedb [H2; W2] [oy2; ox2] [h; w] [ghw_of Tr py; ghw_of Tr px] [bhw_of py; bhw_of px] = true ->
+  fitsb [H1; W1] [oy1 - ry; ox1 - rx] csh' (lp_margin P) = true -> fitsb [H2; W2] [oy2 - ry; ox2 - rx] csh' (lp_margin P) = true ->
+  fitsb [H1; W1] [oy1 - ry; ox1 - rx] csh' m = true -> fitsb [H2; W2] [oy2 - ry; ox2 - rx] csh' m = true ->
+  (forall sf im, preprocess_stage np_exp dt raw1 [ny; nx] [sy; sx] threshold = ROk (sf, ImZ dt im) ->
+                 no_tie_sf sqrtf (lp_sep P) T sf (refine_rows2 percentile P raw1 im) = true) ->
+  exists sf1 sf2 table1 table2 rows,
+    locate_pre_whole sqrtf percentile np_exp dt P T [ny; nx] [sy; sx] threshold raw1 = ROk (sf1, table1) /\
+    locate_pre_whole sqrtf percentile np_exp dt P T [ny; nx] [sy; sx] threshold raw2 = ROk (sf2, table2) /\
+    (sf1 == sf2)%Q /\
+    Permutation table2 rows /\ Forall2 (wline_moved d) table1 rows /\
+    (H1 * W1 = H2 * W2 -> (forall a b, (a == b)%Q -> (sqrtf a == sqrtf b)%Q) -> Forall2 (wline_moved_ep d) table1 rows).
+Proof. exact locate_pre_whole_moved. Qed.
+Print Assumptions C09_locate_preprocess_whole_moved.
+
+(* (41) THE MODEL OF (40) IS WHAT THE GENERATED CODE COMPUTES.
+   (a) the generated whole locate (generated head ; generated tail) with preprocess=True, invert=False, python engine, on a 2-D integer
+       image whose preprocess_stage returns (sf, im): it returns exactly Proofs/TailGen.tail_result -- the C08 selection
+       LocateTail.select on LocateTail.candidates with the columns of StaticError.locate_ep, proved equal to Gen/tail.py_locate_tail for
+       ALL inputs in C08 -- with the scale factor sf, measure_noise on (im, raw) and the rows of refine_com(raw, im);
+   (b) the table of the C08 tail model on those rows is whole_table column by column (index labels aside). *)
+Theorem C09_gen_locate_preprocess_is_tail_result :
+  forall np_percentile np_exp NUMBA_AVAILABLE sqrtf frame_no dt raw0 diameter minmass maxsize separation noise_size smoothing_size threshold
+         percentile topn max_iterations filter_after characterize engine V sf im,
+  let raw := squeeze_image raw0 in
+  let thr := match threshold with Some t => t | None => 1%Q end in
+  let radius := radius_of (a_diameter V) in
+  List.length (shape raw) = 2%nat -> List.length (shape im) = 2%nat ->
+  locate_args 2 diameter maxsize separation smoothing_size noise_size = ROk V ->
+  preprocess_stage np_exp dt raw (a_noise V) (a_smooth V) thr = ROk (sf, ImZ dt im) ->
+  Forall (fun s => (0 <= s)%Q) (a_sep V) ->
+  py_engine NUMBA_AVAILABLE 2 engine ->
+  py_locate fops2 np_percentile np_exp NUMBA_AVAILABLE sqrtf frame_no (ImZ dt raw0) diameter minmass maxsize separation noise_size
+            smoothing_size threshold false percentile topn true max_iterations None filter_after characterize engine =
+  Proofs.TailGen.tail_result sqrtf (PyRefine.default_pos_columns 2) characterize (characterize && isotropic radius) (a_sep V) sf
+              (match minmass with Some m => m | None => 0%Q end) maxsize topn im raw frame_no radius (a_noise V)
+              (map (LocatePipe.row_of sqrtf)
+                   (refine_rows2 (fun l => np_percentile l percentile) (lp_of V max_iterations characterize) raw im)).
+Proof. exact gen_locate_pre_eq. Qed.
+Print Assumptions C09_gen_locate_preprocess_is_tail_result.
+
+Theorem C09_tail_model_is_whole_table :
+  forall sqrtf sep sf minmass maxsize topn im raw radius noise_size characterize table,
+  map unlabel (LocateTail.tail (Proofs.TailGen.tail_P sqrtf sep sf minmass maxsize topn im raw radius noise_size characterize)
+                               (map (LocatePipe.row_of sqrtf) table)) =
+  map wl_cols (whole_table sqrtf sep (mkTP minmass maxsize topn) sf radius noise_size characterize im raw table).
+Proof. exact tail_is_whole_table. Qed.
+Print Assumptions C09_tail_model_is_whole_table.
+
+(* (42) (40) FOR THE GENERATED locate: premises of (37), maxsize only with characterize=True (else locate raises KeyError 'size'),
+   no tie in refine_com's table of the first run.  Both calls of the generated locate(preprocess=True) return a table; the lines of
+   the second (index labels aside, up to the row order) are the lines of the first with the position columns moved by exactly the offset
+   difference, mass the same number, size and raw_mass identical; and the ep columns equal as float64 values when the canvases have the
+   same number of pixels.  (ecc and signal are not columns of the dframe model; (40) has them.) *)
+Theorem C09_gen_locate_preprocess_moved :
+  forall (np_percentile : list Z -> Q -> Q) (np_exp : Q -> Q) NUMBA_AVAILABLE (sqrtf : Q -> Q) percentile,
+  (forall l l', Permutation l l' -> np_percentile l percentile = np_percentile l' percentile) ->
+  (forall l, (forall v, In v l -> 0 <= v) -> (0 <= np_percentile l percentile)%Q) ->
+  forall frame_no1 frame_no2 dt content h w H1 W1 oy1 ox1 H2 W2 oy2 ox2 raw01 raw02 diameter minmass maxsize separation noise_size
+         smoothing_size threshold topn max_iterations filter_after characterize engine V ny nx sy sx,
+  let thr := match threshold with Some t => t | None => 1%Q end in
+  let Tr := Gen.preproc.py_bandpass_default_truncate in
+  let py := stage_par np_exp ny sy in
+  let px := stage_par np_exp nx sx in
+  let ry := stage_reach np_exp ny sy in
+  let rx := stage_reach np_exp nx sx in
+  let csh' := [h + 2 * ry; w + 2 * rx] in
+  let d := vsub [oy2; ox2] [oy1; ox1] in
+  let P := lp_of V max_iterations characterize in
+  let T := mkTP (match minmass with Some m => m | None => 0%Q end) maxsize topn in
+  let m := map (fun r => r + Z.of_nat (pred (iters_of max_iterations))) (lp_radius P) in
+  shape content = [h; w] -> (forall c, pix content c <> 0 -> in_bounds (shape content) c) ->
+  1 <= h -> 1 <= w -> (0 <= thr)%Q -> 0 <= iinfo_max dt -> 1 <= sy -> 1 <= sx ->
+  (ny < inject_Z sy)%Q -> (nx < inject_Z sx)%Q -> Z.odd sy = true -> Z.odd sx = true ->
+  squeeze_image raw01 = embed [H1; W1] [oy1; ox1] content -> squeeze_image raw02 = embed [H2; W2] [oy2; ox2] content ->
+  locate_args 2 diameter maxsize separation smoothing_size noise_size = ROk V ->
+  a_noise V = [ny; nx] -> a_smooth V = [sy; sx] -> List.length (a_sep V) = 2%nat ->
+  Forall (fun s => (0 <= s)%Q) (a_sep V) -> Forall (fun s => 1 <= s) (map (box_size 2) (a_sep V)) ->
+  py_engine NUMBA_AVAILABLE 2 engine ->
+  maxsize = None \/ characterize = true ->
+  paddedb [H1; W1] [oy1; ox1] [h; w] [ghw_of Tr py; ghw_of Tr px] [bhw_of py; bhw_of px] = true ->
+  paddedb [H2; W2] [oy2; ox2] [h; w] [ghw_of Tr py; ghw_of Tr px] [bhw_of py; bhw_of px] = true ->
+  fitsb [H1; W1] [oy1 - ry; ox1 - rx] csh' (lp_margin P) = true -> fitsb [H2; W2] [oy2 - ry; ox2 - rx] csh' (lp_margin P) = true ->
+  fitsb [H1; W1] [oy1 - ry; ox1 - rx] csh' m = true -> fitsb [H2; W2] [oy2 - ry; ox2 - rx] csh' m = true ->
+  (forall sf im, preprocess_stage np_exp dt (embed [H1; W1] [oy1; ox1] content) [ny; nx] [sy; sx] thr = ROk (sf, ImZ dt im) ->
+                 no_tie_sf sqrtf (a_sep V) T sf
+                           (refine_rows2 (fun l => np_percentile l percentile) P (embed [H1; W1] [oy1; ox1] content) im) = true) ->
+  exists d1 d2 lines,
+    py_locate fops2 np_percentile np_exp NUMBA_AVAILABLE sqrtf frame_no1 (ImZ dt raw01) diameter minmass maxsize separation noise_size
+              smoothing_size threshold false percentile topn true max_iterations None filter_after characterize engine = ROk d1 /\
+    py_locate fops2 np_percentile np_exp NUMBA_AVAILABLE sqrtf frame_no2 (ImZ dt raw02) diameter minmass maxsize separation noise_size
+              smoothing_size threshold false percentile topn true max_iterations None filter_after characterize engine = ROk d2 /\
+    Permutation (map unlabel (df_lines d2)) lines /\
+    Forall2 (dline_moved d) (map unlabel (df_lines d1)) lines /\
+    (H1 * W1 = H2 * W2 -> (forall a b, (a == b)%Q -> (sqrtf a == sqrtf b)%Q) ->
+     Forall2 (dline_moved_ep d) (map unlabel (df_lines d1)) lines).
+Proof. exact gen_locate_preprocess_moved. Qed.
+Print Assumptions C09_gen_locate_preprocess_moved.
+
+(* Non-vacuity of (40), (42): the 5 x 5 blob and, six columns to its right, one pixel of brightness 1 that the bandpass threshold
+   (1/10) removes from the processed image -- it is background with the raw value 1.  noise_size 1, smoothing_size 5 (reach 4),
+   diameter 3, separation 4, margin 2, max_iterations 3.  Canvases 20 x 30 (content at (7, 8)) and 24 x 25 (content at (8, 7)): 600
+   pixels each, different shapes.  Every premise holds, no_tie and the proviso of the ep part included (xsqrt: a stand-in for np.sqrt
+   that respects ==). *)
+Example C09_preprocess_whole_premises_satisfiable :
+  let Tr := Gen.preproc.py_bandpass_default_truncate in
+  let p := stage_par ex_nexp 1 5 in
+  shape ycontent = [5; 11] /\ (forall c, pix ycontent c <> 0 -> in_bounds (shape ycontent) c) /\
+  (0 <= 1 # 10)%Q /\ 0 <= iinfo_max (mkDT false 8) /\ (1 < inject_Z 5)%Q /\ Z.odd 5 = true /\
+  stage_reach ex_nexp 1 5 = 4 /\
+  List.length (lp_sep yP) = 2%nat /\ List.length (lp_margin yP) = 2%nat /\ List.length (lp_radius yP) = 2%nat /\
+  Forall (fun s => 1 <= s) (map (box_size 2) (lp_sep yP)) /\
+  paddedb [20; 30] [7; 8] [5; 11] [ghw_of Tr p; ghw_of Tr p] [bhw_of p; bhw_of p] = true /\
+  paddedb [24; 25] [8; 7] [5; 11] [ghw_of Tr p; ghw_of Tr p] [bhw_of p; bhw_of p] = true /\
+  fitsb [20; 30] [7 - 4; 8 - 4] [5 + 2 * 4; 11 + 2 * 4] (lp_margin yP) = true /\
+  fitsb [24; 25] [8 - 4; 7 - 4] [5 + 2 * 4; 11 + 2 * 4] (lp_margin yP) = true /\
+  fitsb [20; 30] [7 - 4; 8 - 4] [5 + 2 * 4; 11 + 2 * 4]
+        (map (fun r => r + Z.of_nat (pred (iters_of (lp_maxit yP)))) (lp_radius yP)) = true /\
+  fitsb [24; 25] [8 - 4; 7 - 4] [5 + 2 * 4; 11 + 2 * 4]
+        (map (fun r => r + Z.of_nat (pred (iters_of (lp_maxit yP)))) (lp_radius yP)) = true /\
+  (forall sf im, preprocess_stage ex_nexp (mkDT false 8) yr1 [1; 1]%Q [5; 5] (1 # 10) = ROk (sf, ImZ (mkDT false 8) im) ->
+                 no_tie_sf xsqrt (lp_sep yP) yT sf (refine_rows2 ex_percentile yP yr1 im) = true) /\
+  20 * 30 = 24 * 25 /\ (forall a b, (a == b)%Q -> (xsqrt a == xsqrt b)%Q).
+Proof. exact ex_pre_whole_premises. Qed.
+
+Example C09_gen_preprocess_premises_satisfiable :
+  exists V, locate_args 2 (PyPreproc.PyScalar 3) None None (Some (PyPreproc.PyScalar 5)) (PyPreproc.PyScalar 1%Q) = ROk V /\
+            a_noise V = [1; 1]%Q /\ a_smooth V = [5; 5] /\ lp_of V 3 true = yP /\
+            Forall (fun s => (0 <= s)%Q) (a_sep V) /\ py_engine false 2 "python"%string /\
+            squeeze_image yr1 = yr1 /\ squeeze_image yr2 = yr2.
+Proof. exact ex_pre_gen_premises. Qed.
+
+(* Executed (the GENERATED locate, preprocess=True): five features on each of the two 600-pixel canvases, every position moved by
+   (1, -1), mass / scale_factor, raw_mass and ep identical (ep is NaN where raw_mass - Npx * black_level is negative).  On a THIRD
+   canvas, 22 x 25 = 550 pixels, content at (8, 7) as in the second: the same positions, masses and raw masses as the second, but
+   ANOTHER ep for the feature that has one: black_level = 25 / (number of background pixels). *)
+Example C09_preprocess_whole_instance :
+  yr1 = embed [20; 30] [7; 8] ycontent /\ yr2 = embed [24; 25] [8; 7] ycontent /\ yr3 = embed [22; 25] [8; 7] ycontent /\
+  (forall raw, yrun raw =
+     py_locate fops2 (fun _ _ => 1 # 2)%Q ex_nexp false xsqrt None (ImZ (mkDT false 8) raw)
+               (PyPreproc.PyScalar 3) None None None (PyPreproc.PyScalar 1%Q) (Some (PyPreproc.PyScalar 5)) (Some (1 # 10)%Q)
+               false 64%Q None true 3 None None true "python"%string) /\
+  (forall d, yshow d = map (fun x => (r_pos (snd (fst x)), r_mass (snd (fst x)), r_raw (snd (fst x)), snd x)) (df_lines d)) /\
+  match yrun yr1, yrun yr2, yrun yr3 with
+  | ROk d1, ROk d2, ROk d3 =>
+      yshow d1 = [([2514 # 516; 5160 # 516], 823639200 # 803409375, 0, [FNaN]);
+                  ([4644 # 516; 3030 # 516], 823639200 # 803409375, 0, [FNaN]);
+                  ([2295 # 255; 2550 # 255], 407031000 # 803409375, 37, [FVal (3166155 # 183380000)]);
+                  ([4806 # 534; 7549 # 534], 852370800 # 803409375, 0, [FNaN]);
+                  ([6774 # 516; 5160 # 516], 823639200 # 803409375, 0, [FNaN])]%Q /\
+      yshow d2 = [([3030 # 516; 4644 # 516], 823639200 # 803409375, 0, [FNaN]);
+                  ([5160 # 516; 2514 # 516], 823639200 # 803409375, 0, [FNaN]);
+                  ([2550 # 255; 2295 # 255], 407031000 # 803409375, 37, [FVal (3166155 # 183380000)]);
+                  ([5340 # 534; 7015 # 534], 852370800 # 803409375, 0, [FNaN]);
+                  ([7290 # 516; 4644 # 516], 823639200 # 803409375, 0, [FNaN])]%Q /\
+      map (fun l => (fst (fst (fst l)), snd (fst (fst l)), snd (fst l))) (yshow d3) =
+      map (fun l => (fst (fst (fst l)), snd (fst (fst l)), snd (fst l))) (yshow d2) /\
+      map snd (yshow d3) = [[FNaN]; [FNaN]; [FVal (3038832 # 164880000)%Q]; [FNaN]; [FNaN]] /\
+      ~ (3038832 # 164880000 == 3166155 # 183380000)%Q
+  | _, _, _ => False
+  end.
+Proof. do 3 (split; [reflexivity|]). split; [intro; reflexivity|]. split; [intro; reflexivity|]. exact ex_pre_whole_runs. Qed.
+
+(* ------------------------------------------------------------------------------------
+   (43) WITHOUT THE RESTRICTION threshold >= 0  (Proofs/PreprocessMoved2.v).  In (35) the non-negative threshold serves image.max() in
+   convert_to_int -- with a negative threshold the bandpassed content may be negative everywhere, and then the maximum is 0 exactly when
+   the canvas has a pixel outside the grown content box -- and the sign of the scale factor iinfo.max / image.max().  Both follow as well
+   from:  EACH canvas has a pixel outside the content box grown by the filter reach  (h + 2 ry < H  or  w + 2 rx < W).  The negative pixels
+   a negative threshold lets through are removed by convert_to_int's clip at 0.  (35), (40), (42) with that premise in place of
+   threshold >= 0, ANY threshold: *)
+Theorem C09_preprocess_moved_any_threshold :
+  forall (np_exp : Q -> Q) (dt : int_dtype) (content : image) (h w : Z) (ny nx : Q) (sy sx : Z) (threshold : Q),
+  shape content = [h; w] -> (forall c, pix content c <> 0 -> in_bounds (shape content) c) ->
+  1 <= h -> 1 <= w -> 0 <= iinfo_max dt -> 1 <= sy -> 1 <= sx ->
+  (ny < inject_Z sy)%Q -> (nx < inject_Z sx)%Q -> Z.odd sy = true -> Z.odd sx = true ->
+  forall H1 W1 oy1 ox1 H2 W2 oy2 ox2,
+  let T := Gen.preproc.py_bandpass_default_truncate in
+  let py := stage_par np_exp ny sy in
+  let px := stage_par np_exp nx sx in
+  let ry := stage_reach np_exp ny sy in
+  let rx := stage_reach np_exp nx sx in
+  let csh' := [h + 2 * ry; w + 2 * rx] in
+  let d := vsub [oy2; ox2] [oy1; ox1] in
+  paddedb [H1; W1] [oy1; ox1] [h; w] [ghw_of T py; ghw_of T px] [bhw_of py; bhw_of px] = true ->
+  paddedb [H2; W2] [oy2; ox2] [h; w] [ghw_of T py; ghw_of T px] [bhw_of py; bhw_of px] = true ->
+  h + 2 * ry < H1 \/ w + 2 * rx < W1 -> h + 2 * ry < H2 \/ w + 2 * rx < W2 ->
+  exists sf1 sf2 im1 im2,
+    preprocess_stage np_exp dt (embed [H1; W1] [oy1; ox1] content) [ny; nx] [sy; sx] threshold = ROk (sf1, ImZ dt im1) /\
+    preprocess_stage np_exp dt (embed [H2; W2] [oy2; ox2] content) [ny; nx] [sy; sx] threshold = ROk (sf2, ImZ dt im2) /\
+    (sf1 == sf2)%Q /\ shape im1 = [H1; W1] /\ shape im2 = [H2; W2] /\
+    moved d im1 im2 /\
+    (forall p, 0 <= pix im1 p) /\ (forall p, 0 <= pix im2 p) /\
+    (forall mg, fitsb [H1; W1] [oy1 - ry; ox1 - rx] csh' mg = true -> content_inside mg im1) /\
+    (forall mg, fitsb [H2; W2] [oy2 - ry; ox2 - rx] csh' mg = true -> content_inside mg im2) /\
+    (forall P, let m := map (fun r => r + Z.of_nat (pred (iters_of (lp_maxit P)))) (lp_radius P) in
+               fitsb [H1; W1] [oy1 - ry; ox1 - rx] csh' m = true -> fitsb [H2; W2] [oy2 - ry; ox2 - rx] csh' m = true ->
+               content_has_room P d im1 im2).
+Proof. exact Proofs.PreprocessMoved2.preprocess_moved2. Qed.
+Print Assumptions C09_preprocess_moved_any_threshold.
+
+Theorem C09_locate_preprocess_whole_moved_any_threshold :
+  forall (sqrtf : Q -> Q) (percentile : list Z -> Q),
+    (forall l l', Permutation l l' -> percentile l = percentile l') ->
+    (forall l, (forall v, In v l -> 0 <= v) -> (0 <= percentile l)%Q) ->
+  forall np_exp dt content h w H1 W1 oy1 ox1 H2 W2 oy2 ox2 (P : Equivariance.lparams) (T : tparams) ny nx sy sx threshold,
+  let Tr := Gen.preproc.py_bandpass_default_truncate in
+  let py := stage_par np_exp ny sy in
+  let px := stage_par np_exp nx sx in
+  let ry := stage_reach np_exp ny sy in
+  let rx := stage_reach np_exp nx sx in
+  let csh' := [h + 2 * ry; w + 2 * rx] in
+  let d := vsub [oy2; ox2] [oy1; ox1] in
+  let m := map (fun r => r + Z.of_nat (pred (iters_of (lp_maxit P)))) (lp_radius P) in
+  let raw1 := embed [H1; W1] [oy1; ox1] content in
+  let raw2 := embed [H2; W2] [oy2; ox2] content in
+  shape content = [h; w] -> (forall c, pix content c <> 0 -> in_bounds (shape content) c) ->
+  1 <= h -> 1 <= w -> 0 <= iinfo_max dt -> 1 <= sy -> 1 <= sx ->
+  (ny < inject_Z sy)%Q -> (nx < inject_Z sx)%Q -> Z.odd sy = true -> Z.odd sx = true ->
+  List.length (lp_sep P) = 2%nat -> List.length (lp_margin P) = 2%nat -> List.length (lp_radius P) = 2%nat ->
+  Forall (fun s => 1 <= s) (map (box_size 2) (lp_sep P)) ->
+  paddedb [H1; W1] [oy1; ox1] [h; w] [ghw_of Tr py; ghw_of Tr px] [bhw_of py; bhw_of px] = true ->
+  paddedb [H2; W2] [oy2; ox2] [h; w] [ghw_of Tr py; ghw_of Tr px] [bhw_of py; bhw_of px] = true ->
+  h + 2 * ry < H1 \/ w + 2 * rx < W1 -> h + 2 * ry < H2 \/ w + 2 * rx < W2 ->
+  fitsb [H1; W1] [oy1 - ry; ox1 - rx] csh' (lp_margin P) = true -> fitsb [H2; W2] [oy2 - ry; ox2 - rx] csh' (lp_margin P) = true ->
+  fitsb [H1; W1] [oy1 - ry; ox1 - rx] csh' m = true -> fitsb [H2; W2] [oy2 - ry; ox2 - rx] csh' m = true ->
+  (forall sf im, preprocess_stage np_exp dt raw1 [ny; nx] [sy; sx] threshold = ROk (sf, ImZ dt im) ->
+                 no_tie_sf sqrtf (lp_sep P) T sf (refine_rows2 percentile P raw1 im) = true) ->
+  exists sf1 sf2 table1 table2 rows,
+    locate_pre_whole sqrtf percentile np_exp dt P T [ny; nx] [sy; sx] threshold raw1 = ROk (sf1, table1) /\
+    locate_pre_whole sqrtf percentile np_exp dt P T [ny; nx] [sy; sx] threshold raw2 = ROk (sf2, table2) /\
+    (sf1 == sf2)%Q /\
+    Permutation table2 rows /\ Forall2 (wline_moved d) table1 rows /\
+    (H1 * W1 = H2 * W2 -> (forall a b, (a == b)%Q -> (sqrtf a == sqrtf b)%Q) -> Forall2 (wline_moved_ep d) table1 rows).
+Proof. exact locate_pre_whole_moved2. Qed.
+Print Assumptions C09_locate_preprocess_whole_moved_any_threshold.
+
+Theorem C09_gen_locate_preprocess_moved_any_threshold :
+  forall (np_percentile : list Z -> Q -> Q) (np_exp : Q -> Q) NUMBA_AVAILABLE (sqrtf : Q -> Q) percentile,
+  (forall l l', Permutation l l' -> np_percentile l percentile = np_percentile l' percentile) ->
+  (forall l, (forall v, In v l -> 0 <= v) -> (0 <= np_percentile l percentile)%Q) ->
+  forall frame_no1 frame_no2 dt content h w H1 W1 oy1 ox1 H2 W2 oy2 ox2 raw01 raw02 diameter minmass maxsize separation noise_size
+         smoothing_size threshold topn max_iterations filter_after characterize engine V ny nx sy sx,
+  let thr := match threshold with Some t => t | None => 1%Q end in
+  let Tr := Gen.preproc.py_bandpass_default_truncate in
+  let py := stage_par np_exp ny sy in
+  let px := stage_par np_exp nx sx in
+  let ry := stage_reach np_exp ny sy in
+  let rx := stage_reach np_exp nx sx in
+  let csh' := [h + 2 * ry; w + 2 * rx] in
+  let d := vsub [oy2; ox2] [oy1; ox1] in
+  let P := lp_of V max_iterations characterize in
+  let T := mkTP (match minmass with Some m => m | None => 0%Q end) maxsize topn in
+  let m := map (fun r => r + Z.of_nat (pred (iters_of max_iterations))) (lp_radius P) in
+  shape content = [h; w] -> (forall c, pix content c <> 0 -> in_bounds (shape content) c) ->
+  1 <= h -> 1 <= w -> 0 <= iinfo_max dt -> 1 <= sy -> 1 <= sx ->
+  (ny < inject_Z sy)%Q -> (nx < inject_Z sx)%Q -> Z.odd sy = true -> Z.odd sx = true ->
+  squeeze_image raw01 = embed [H1; W1] [oy1; ox1] content -> squeeze_image raw02 = embed [H2; W2] [oy2; ox2] content ->
+  locate_args 2 diameter maxsize separation smoothing_size noise_size = ROk V ->
+  a_noise V = [ny; nx] -> a_smooth V = [sy; sx] -> List.length (a_sep V) = 2%nat ->
+  Forall (fun s => (0 <= s)%Q) (a_sep V) -> Forall (fun s => 1 <= s) (map (box_size 2) (a_sep V)) ->
+  py_engine NUMBA_AVAILABLE 2 engine ->
+  maxsize = None \/ characterize = true ->
+  paddedb [H1; W1] [oy1; ox1] [h; w] [ghw_of Tr py; ghw_of Tr px] [bhw_of py; bhw_of px] = true ->
+  paddedb [H2; W2] [oy2; ox2] [h; w] [ghw_of Tr py; ghw_of Tr px] [bhw_of py; bhw_of px] = true ->
+  h + 2 * ry < H1 \/ w + 2 * rx < W1 -> h + 2 * ry < H2 \/ w + 2 * rx < W2 ->
+  fitsb [H1; W1] [oy1 - ry; ox1 - rx] csh' (lp_margin P) = true -> fitsb [H2; W2] [oy2 - ry; ox2 - rx] csh' (lp_margin P) = true ->
+  fitsb [H1; W1] [oy1 - ry; ox1 - rx] csh' m = true -> fitsb [H2; W2] [oy2 - ry; ox2 - rx] csh' m = true ->
+  (forall sf im, preprocess_stage np_exp dt (embed [H1; W1] [oy1; ox1] content) [ny; nx] [sy; sx] thr = ROk (sf, ImZ dt im) ->
+                 no_tie_sf sqrtf (a_sep V) T sf
+                           (refine_rows2 (fun l => np_percentile l percentile) P (embed [H1; W1] [oy1; ox1] content) im) = true) ->
+  exists d1 d2 lines,
+    py_locate fops2 np_percentile np_exp NUMBA_AVAILABLE sqrtf frame_no1 (ImZ dt raw01) diameter minmass maxsize separation noise_size
+              smoothing_size threshold false percentile topn true max_iterations None filter_after characterize engine = ROk d1 /\
+    py_locate fops2 np_percentile np_exp NUMBA_AVAILABLE sqrtf frame_no2 (ImZ dt raw02) diameter minmass maxsize separation noise_size
+              smoothing_size threshold false percentile topn true max_iterations None filter_after characterize engine = ROk d2 /\
+    Permutation (map unlabel (df_lines d2)) lines /\
+    Forall2 (dline_moved d) (map unlabel (df_lines d1)) lines /\
+    (H1 * W1 = H2 * W2 -> (forall a b, (a == b)%Q -> (sqrtf a == sqrtf b)%Q) ->
+     Forall2 (dline_moved_ep d) (map unlabel (df_lines d1)) lines).
+Proof. exact gen_locate_preprocess_moved2. Qed.
+Print Assumptions C09_gen_locate_preprocess_moved_any_threshold.
+
+(* Non-vacuity of (43): the instance of (40) with the NEGATIVE threshold -1/10: both canvases are larger than the grown box (13 x 19),
+   and refine_com's table of the first run (nine rows) has no tie; the other premises are those of
+   C09_preprocess_whole_premises_satisfiable, which do not depend on the threshold. *)
+Example C09_preprocess_whole_negative_threshold_satisfiable :
+  (-1 # 10 < 0)%Q /\ stage_reach ex_nexp 1 5 = 4 /\ (5 + 2 * 4 < 20 \/ 11 + 2 * 4 < 30) /\ (5 + 2 * 4 < 24 \/ 11 + 2 * 4 < 25) /\
+  (forall sf im, preprocess_stage ex_nexp (mkDT false 8) yr1 [1; 1]%Q [5; 5] (-1 # 10) = ROk (sf, ImZ (mkDT false 8) im) ->
+                 no_tie_sf xsqrt (lp_sep yP) yT sf (refine_rows2 ex_percentile yP yr1 im) = true).
+Proof. exact ex_pre_whole_premises_negthr. Qed.
